@@ -252,6 +252,14 @@ fn check_history(h: &History, st: &mut Stats) -> R {
         if asm.len() != ri.wc {
             return Err(f("assemble-word-count", format!("parsed Op{} occupied {} words, assemble emits {}", ri.opname, ri.wc, asm.len())));
         }
+        if asm.is_empty() || (asm[0] >> 16) as usize != asm.len() {
+            return Err(f("assemble-word-count", format!("Op{}: assemble() emits {} words but declares {} in its first word", ri.opname, asm.len(), asm.first().map(|w| w >> 16).unwrap_or(0))));
+        }
+        let mut into = vec![];
+        no_panic("Instruction::assemble_into", || di.assemble_into(&mut into))?;
+        if into != asm {
+            return Err(f("assemble-word-count", format!("Op{}: assemble() and assemble_into() differ: {:x?} vs {:x?}", ri.opname, asm, into)));
+        }
         let before = ri.rid.map(|r| tc.map.contains_key(&r)).unwrap_or(false);
         tc.track(&ri.opname, ri.rtype, ri.rid, opw);
         if let Some(r) = ri.rid {
